@@ -339,7 +339,7 @@ Qed.
 (* process_segment: the decomposition used by every proof about it     *)
 Inductive ps_outcome (t : tcb) (s : segment) (t' : tcb) (r : psr) : Prop :=
 | PO_seq :                       (* stage 1: unacceptable sequence number *)
-    st t <> SynSent -> st t <> Closing ->
+    st t <> SynSent ->
     is_seq_ok t (zlen (s_text s)) (h_seq (s_hdr s)) (c_syn (h_ctl (s_hdr s))) (c_fin (h_ctl (s_hdr s))) = false ->
     t' = enqueue t (ack_hdr t) -> r = PDiscard -> ps_outcome t s t' r
 | PO_ack :                       (* stage 2 returned *)
@@ -365,7 +365,7 @@ Inductive ps_outcome (t : tcb) (s : segment) (t' : tcb) (r : psr) : Prop :=
     t' = ps_fin t6 (s_hdr s) (zlen (s_text s)) -> r = PSuccess -> ps_outcome t s t' r.
 
 Definition seq_checked (t : tcb) : bool :=
-  match st t with SynSent | Closing => false | _ => true end.
+  match st t with SynSent => false | _ => true end.
 
 Lemma process_segment_cases t s t' r :
   process_segment t s = Ok (t', r) -> ps_outcome t s t' r.
@@ -412,7 +412,7 @@ Lemma process_segment_edge t s t' r :
   process_segment t s = Ok (t', r) -> rfc_edge (st t) (st t') = true.
 Proof.
   intros H. destruct (process_segment_cases _ _ _ _ H) as
-      [? ? ? ? ?|? ?|? ? ?|Ha Hr ? Hs|Ha Hr ? Hs ? ?|t4 t6 Ha Hr ? Hs Hn Ht ? ?]; subst.
+      [? ? ? ?|? ?|? ? ?|Ha Hr ? Hs|Ha Hr ? Hs ? ?|t4 t6 Ha Hr ? Hs Hn Ht ? ?]; subst.
   - rewrite enqueue_st. apply rfc_edge_refl.
   - apply ack_edge_rfc, ps_ack_st.
   - apply ack_edge_rfc, ps_ack_st.
@@ -565,7 +565,7 @@ Lemma process_segment_deleted t s t' r :
    is_fin_acked t' = true).
 Proof.
   intros H Hd. destruct (process_segment_cases _ _ _ _ H) as
-      [? ? ? ? ?|? Ha|? ? Hr|Ha Hr ? Hs|Ha Hr ? Hs ? ?|t4 t6 Ha Hr ? Hs Hn Ht ? ?]; subst;
+      [? ? ? ?|? Ha|? ? Hr|Ha Hr ? Hs|Ha Hr ? Hs ? ?|t4 t6 Ha Hr ? Hs Hn Ht ? ?]; subst;
     try discriminate Hd.
   - destruct (ps_ack_result _ _ _ Ha) as [->|[->|(-> & ? & ? & ? & ?)]]; try discriminate Hd.
     right. auto.
